@@ -616,7 +616,18 @@ func mutateTreeShallow(r *Rng, root **W) string {
 		}
 	}
 	n := *p
-	switch r.Intn(18) {
+	switch r.Intn(19) {
+	case 18:
+		if n.Maj == 4 && len(n.Kids) > 0 {
+			n.Kids[r.Intn(len(n.Kids))] = pick(r, []*W{wNull(), wUndef()})
+			return "array-element-to-null"
+		}
+		if n.Maj == 5 && len(n.Kids) >= 2 {
+			n.Kids[2*r.Intn(len(n.Kids)/2)+1] = pick(r, []*W{wNull(), wUndef()})
+			return "map-value-to-null"
+		}
+		set(wUndef())
+		return "to-undefined"
 	case 16:
 		if n.Maj == 5 {
 			n.Kids = append(n.Kids, wInt(pick(r, []int64{3, 16}), -1), wTstr(pick(r, []string{"", " a/b", "a/b ", "ab", "a/b/c", "/", " "}), -1))
